@@ -310,6 +310,179 @@ func (*Thread).opCloseUpvalues
     invariant stackmem: forall a int :: a >= 0 ==> load(value.Value, a) == old(load(value.Value, a))
     decreases ite(vm.openUpvalueHead == nil, 0, vm.openUpvalueHead.slot - sbase(vm) + 1)
 
+// ==== C23: ranges agree with their bounds ================================================
+// (this block is written by /verif/tools/gen_c23_contracts.py)
+// The order on range elements is whatever >, >=, <, <= and ++ of the element type are (they may
+// dispatch to Elk code): they are modelled as pure functions of their operands.  What is
+// proved is that each range kind consults exactly the comparison its bounds call for.
+func GreaterThan
+  trusted
+  pure
+  assigns nothing
+
+func GreaterThanEqual
+  trusted
+  pure
+  assigns nothing
+
+func LessThan
+  trusted
+  pure
+  assigns nothing
+
+func LessThanEqual
+  trusted
+  pure
+  assigns nothing
+
+func Increment
+  trusted
+  pure
+  assigns nothing
+
+spec fn gtOk(vm *Thread, a value.Value, b value.Value) bool = snd(GreaterThan(vm, a, b)).flag == value.UNDEFINED_FLAG
+spec fn gtErr(vm *Thread, a value.Value, b value.Value) value.Value = snd(GreaterThan(vm, a, b))
+spec fn gt(vm *Thread, a value.Value, b value.Value) bool = value.Truthy(fst(GreaterThan(vm, a, b)))
+spec fn geOk(vm *Thread, a value.Value, b value.Value) bool = snd(GreaterThanEqual(vm, a, b)).flag == value.UNDEFINED_FLAG
+spec fn geErr(vm *Thread, a value.Value, b value.Value) value.Value = snd(GreaterThanEqual(vm, a, b))
+spec fn ge(vm *Thread, a value.Value, b value.Value) bool = value.Truthy(fst(GreaterThanEqual(vm, a, b)))
+spec fn ltOk(vm *Thread, a value.Value, b value.Value) bool = snd(LessThan(vm, a, b)).flag == value.UNDEFINED_FLAG
+spec fn ltErr(vm *Thread, a value.Value, b value.Value) value.Value = snd(LessThan(vm, a, b))
+spec fn lt(vm *Thread, a value.Value, b value.Value) bool = value.Truthy(fst(LessThan(vm, a, b)))
+spec fn leOk(vm *Thread, a value.Value, b value.Value) bool = snd(LessThanEqual(vm, a, b)).flag == value.UNDEFINED_FLAG
+spec fn leErr(vm *Thread, a value.Value, b value.Value) value.Value = snd(LessThanEqual(vm, a, b))
+spec fn le(vm *Thread, a value.Value, b value.Value) bool = value.Truthy(fst(LessThanEqual(vm, a, b)))
+spec fn incOk(vm *Thread, a value.Value) bool = snd(Increment(vm, a)).flag == value.UNDEFINED_FLAG
+spec fn incErr(vm *Thread, a value.Value) value.Value = snd(Increment(vm, a))
+spec fn succ(vm *Thread, a value.Value) value.Value = fst(Increment(vm, a))
+
+// ClosedRange: val is contained iff val ge start and val le end
+func ClosedRangeContains
+  props C23
+  requires r != nil
+  assigns nothing
+  ensures lowerr: !geOk(vm, val, r.Start) ==> !ret0 && ret1 == geErr(vm, val, r.Start)
+  ensures below: geOk(vm, val, r.Start) && !ge(vm, val, r.Start) ==> !ret0 && ret1 == value.Undefined
+  ensures upperr: geOk(vm, val, r.Start) && ge(vm, val, r.Start) && !leOk(vm, val, r.End) ==> !ret0 && ret1 == leErr(vm, val, r.End)
+  ensures within: geOk(vm, val, r.Start) && ge(vm, val, r.Start) && leOk(vm, val, r.End) ==> ret1 == value.Undefined && (ret0 <==> le(vm, val, r.End))
+
+// OpenRange: val is contained iff val gt start and val lt end
+func OpenRangeContains
+  props C23
+  requires r != nil
+  assigns nothing
+  ensures lowerr: !gtOk(vm, val, r.Start) ==> !ret0 && ret1 == gtErr(vm, val, r.Start)
+  ensures below: gtOk(vm, val, r.Start) && !gt(vm, val, r.Start) ==> !ret0 && ret1 == value.Undefined
+  ensures upperr: gtOk(vm, val, r.Start) && gt(vm, val, r.Start) && !ltOk(vm, val, r.End) ==> !ret0 && ret1 == ltErr(vm, val, r.End)
+  ensures within: gtOk(vm, val, r.Start) && gt(vm, val, r.Start) && ltOk(vm, val, r.End) ==> ret1 == value.Undefined && (ret0 <==> lt(vm, val, r.End))
+
+// LeftOpenRange: val is contained iff val gt start and val le end
+func LeftOpenRangeContains
+  props C23
+  requires r != nil
+  assigns nothing
+  ensures lowerr: !gtOk(vm, val, r.Start) ==> !ret0 && ret1 == gtErr(vm, val, r.Start)
+  ensures below: gtOk(vm, val, r.Start) && !gt(vm, val, r.Start) ==> !ret0 && ret1 == value.Undefined
+  ensures upperr: gtOk(vm, val, r.Start) && gt(vm, val, r.Start) && !leOk(vm, val, r.End) ==> !ret0 && ret1 == leErr(vm, val, r.End)
+  ensures within: gtOk(vm, val, r.Start) && gt(vm, val, r.Start) && leOk(vm, val, r.End) ==> ret1 == value.Undefined && (ret0 <==> le(vm, val, r.End))
+
+// RightOpenRange: val is contained iff val ge start and val lt end
+func RightOpenRangeContains
+  props C23
+  requires r != nil
+  assigns nothing
+  ensures lowerr: !geOk(vm, val, r.Start) ==> !ret0 && ret1 == geErr(vm, val, r.Start)
+  ensures below: geOk(vm, val, r.Start) && !ge(vm, val, r.Start) ==> !ret0 && ret1 == value.Undefined
+  ensures upperr: geOk(vm, val, r.Start) && ge(vm, val, r.Start) && !ltOk(vm, val, r.End) ==> !ret0 && ret1 == ltErr(vm, val, r.End)
+  ensures within: geOk(vm, val, r.Start) && ge(vm, val, r.Start) && ltOk(vm, val, r.End) ==> ret1 == value.Undefined && (ret0 <==> lt(vm, val, r.End))
+
+// BeginlessClosedRange: val is contained iff val le end
+func BeginlessClosedRangeContains
+  props C23
+  requires r != nil
+  assigns nothing
+  ensures err: !leOk(vm, val, r.End) ==> !ret0 && ret1 == leErr(vm, val, r.End)
+  ensures within: leOk(vm, val, r.End) ==> ret1 == value.Undefined && (ret0 <==> le(vm, val, r.End))
+
+// BeginlessOpenRange: val is contained iff val lt end
+func BeginlessOpenRangeContains
+  props C23
+  requires r != nil
+  assigns nothing
+  ensures err: !ltOk(vm, val, r.End) ==> !ret0 && ret1 == ltErr(vm, val, r.End)
+  ensures within: ltOk(vm, val, r.End) ==> ret1 == value.Undefined && (ret0 <==> lt(vm, val, r.End))
+
+// EndlessClosedRange: val is contained iff val ge start
+func EndlessClosedRangeContains
+  props C23
+  requires r != nil
+  assigns nothing
+  ensures err: !geOk(vm, val, r.Start) ==> !ret0 && ret1 == geErr(vm, val, r.Start)
+  ensures within: geOk(vm, val, r.Start) ==> ret1 == value.Undefined && (ret0 <==> ge(vm, val, r.Start))
+
+// EndlessOpenRange: val is contained iff val gt start
+func EndlessOpenRangeContains
+  props C23
+  requires r != nil
+  assigns nothing
+  ensures err: !gtOk(vm, val, r.Start) ==> !ret0 && ret1 == gtErr(vm, val, r.Start)
+  ensures within: gtOk(vm, val, r.Start) ==> ret1 == value.Undefined && (ret0 <==> gt(vm, val, r.Start))
+
+spec fn stopSym(v value.Value) bool = v == value.ToSymbol("stop_iteration").ToValue()
+
+func ClosedRangeIteratorNext
+  props C23
+  requires i != nil && i.Range != nil
+  requires value.SymbolTable != nil && lockOf(value.SymbolTable) == 0
+  ensures cmperr: !old(gtOk(vm, i.CurrentElement, i.Range.End)) ==> ret0 == value.Undefined && ret1 == old(gtErr(vm, i.CurrentElement, i.Range.End)) && i.CurrentElement == old(i.CurrentElement)
+  ensures stop: old(gtOk(vm, i.CurrentElement, i.Range.End)) && old(gt(vm, i.CurrentElement, i.Range.End)) ==> ret0 == value.Undefined && i.CurrentElement == old(i.CurrentElement)
+  ensures incerr: old(gtOk(vm, i.CurrentElement, i.Range.End)) && !old(gt(vm, i.CurrentElement, i.Range.End)) && !old(incOk(vm, i.CurrentElement)) ==> ret0 == value.Undefined && ret1 == old(incErr(vm, i.CurrentElement)) && i.CurrentElement == old(i.CurrentElement)
+  ensures yield: old(gtOk(vm, i.CurrentElement, i.Range.End)) && !old(gt(vm, i.CurrentElement, i.Range.End)) && old(incOk(vm, i.CurrentElement)) ==> ret0 == old(i.CurrentElement) && ret1 == value.Undefined && i.CurrentElement == old(succ(vm, i.CurrentElement))
+  ensures range: i.Range == old(i.Range)
+
+func RightOpenRangeIteratorNext
+  props C23
+  requires i != nil && i.Range != nil
+  ensures cmperr: !old(geOk(vm, i.CurrentElement, i.Range.End)) ==> ret0 == value.Undefined && ret1 == old(geErr(vm, i.CurrentElement, i.Range.End)) && i.CurrentElement == old(i.CurrentElement)
+  ensures stop: old(geOk(vm, i.CurrentElement, i.Range.End)) && old(ge(vm, i.CurrentElement, i.Range.End)) ==> ret0 == value.Undefined && ret1 == stopIterationSymbol.ToValue() && i.CurrentElement == old(i.CurrentElement)
+  ensures incerr: old(geOk(vm, i.CurrentElement, i.Range.End)) && !old(ge(vm, i.CurrentElement, i.Range.End)) && !old(incOk(vm, i.CurrentElement)) ==> ret0 == value.Undefined && ret1 == old(incErr(vm, i.CurrentElement)) && i.CurrentElement == old(i.CurrentElement)
+  ensures yield: old(geOk(vm, i.CurrentElement, i.Range.End)) && !old(ge(vm, i.CurrentElement, i.Range.End)) && old(incOk(vm, i.CurrentElement)) ==> ret0 == old(i.CurrentElement) && ret1 == value.Undefined && i.CurrentElement == old(succ(vm, i.CurrentElement))
+  ensures range: i.Range == old(i.Range)
+
+func OpenRangeIteratorNext
+  props C23
+  requires i != nil && i.Range != nil
+  ensures incerr: !old(incOk(vm, i.CurrentElement)) ==> ret0 == value.Undefined && ret1 == old(incErr(vm, i.CurrentElement)) && i.CurrentElement == old(i.CurrentElement)
+  ensures cmperr: old(incOk(vm, i.CurrentElement)) && !old(geOk(vm, succ(vm, i.CurrentElement), i.Range.End)) ==> ret0 == value.Undefined && ret1 == old(geErr(vm, succ(vm, i.CurrentElement), i.Range.End))
+  ensures stop: old(incOk(vm, i.CurrentElement)) && old(geOk(vm, succ(vm, i.CurrentElement), i.Range.End)) && old(ge(vm, succ(vm, i.CurrentElement), i.Range.End)) ==> ret0 == value.Undefined && ret1 == stopIterationSymbol.ToValue()
+  ensures yield: old(incOk(vm, i.CurrentElement)) && old(geOk(vm, succ(vm, i.CurrentElement), i.Range.End)) && !old(ge(vm, succ(vm, i.CurrentElement), i.Range.End)) ==> ret0 == old(succ(vm, i.CurrentElement)) && ret1 == value.Undefined && i.CurrentElement == old(succ(vm, i.CurrentElement))
+  ensures range: i.Range == old(i.Range)
+
+func LeftOpenRangeIteratorNext
+  props C23
+  requires i != nil && i.Range != nil
+  ensures incerr: !old(incOk(vm, i.CurrentElement)) ==> ret0 == value.Undefined && ret1 == old(incErr(vm, i.CurrentElement)) && i.CurrentElement == old(i.CurrentElement)
+  ensures cmperr: old(incOk(vm, i.CurrentElement)) && !old(gtOk(vm, succ(vm, i.CurrentElement), i.Range.End)) ==> ret0 == value.Undefined && ret1 == old(gtErr(vm, succ(vm, i.CurrentElement), i.Range.End))
+  ensures stop: old(incOk(vm, i.CurrentElement)) && old(gtOk(vm, succ(vm, i.CurrentElement), i.Range.End)) && old(gt(vm, succ(vm, i.CurrentElement), i.Range.End)) ==> ret0 == value.Undefined && ret1 == stopIterationSymbol.ToValue()
+  ensures yield: old(incOk(vm, i.CurrentElement)) && old(gtOk(vm, succ(vm, i.CurrentElement), i.Range.End)) && !old(gt(vm, succ(vm, i.CurrentElement), i.Range.End)) ==> ret0 == old(succ(vm, i.CurrentElement)) && ret1 == value.Undefined && i.CurrentElement == old(succ(vm, i.CurrentElement))
+  ensures range: i.Range == old(i.Range)
+
+func EndlessClosedRangeIteratorNext
+  props C23
+  requires i != nil && i.Range != nil
+  ensures incerr: !old(incOk(vm, i.CurrentElement)) ==> ret0 == value.Undefined && ret1 == old(incErr(vm, i.CurrentElement)) && i.CurrentElement == old(i.CurrentElement)
+  ensures yield: old(incOk(vm, i.CurrentElement)) ==> ret0 == old(i.CurrentElement) && ret1 == value.Undefined && i.CurrentElement == old(succ(vm, i.CurrentElement))
+  ensures range: i.Range == old(i.Range)
+
+func EndlessOpenRangeIteratorNext
+  props C23
+  requires i != nil && i.Range != nil
+  ensures incerr: !old(incOk(vm, i.CurrentElement)) ==> ret0 == value.Undefined && ret1 == old(incErr(vm, i.CurrentElement)) && i.CurrentElement == old(i.CurrentElement)
+  ensures yield: old(incOk(vm, i.CurrentElement)) ==> ret0 == old(succ(vm, i.CurrentElement)) && ret1 == value.Undefined && i.CurrentElement == old(succ(vm, i.CurrentElement))
+  ensures range: i.Range == old(i.Range)
+
+// ==== end C23
+
 // ==== stack traces (C32) ================================================================
 // The trace of a thread lists, outermost first, every suspended call frame that stands for a
 // call (native frames and bytecode frames; sentinels carry neither) followed by the running
